@@ -63,5 +63,52 @@ int main(int argc, char** argv) {
     }
     return 0;
   }
+  if (cmd == "helpers") {
+    // the increment helper with an explicit modulus, on the whole product (limit, hour): rows "hl limit hour result"
+    for (int limit = 1; limit < 256; limit++) for (int h = 0; h < 256; h++) {
+      TimePeriod p((uint8_t) h, 0, 0, 1);
+      time_period_mutation::incrementHour(p, (uint8_t) limit);
+      printf("hl %d %d %d\n", limit, h, p.hour());
+    }
+    // the one-day date helpers on every day of 1873..2127 against the civil calendar; the other fields of a zoned
+    // date-time are left alone by each helper
+    long lo = days_from_civil(1873, 1, 1), hi = days_from_civil(2127, 12, 31), bad = 0, n = 0;
+    for (long d = lo; d <= hi; d++) {
+      Civil c = civil_from_days(d);
+      LocalDate ld = LocalDate::forComponents((int16_t) c.y, (uint8_t) c.m, (uint8_t) c.d);
+      if (d < hi) {
+        LocalDate nx = ld; local_date_mutation::incrementOneDay(nx);
+        Civil e = civil_from_days(d + 1); n++;
+        if (nx.year() != e.y || nx.month() != e.m || nx.day() != e.d) { if (bad < 20) printf("day inc %ld %d %d %d\n", d, nx.year(), nx.month(), nx.day()); bad++; }
+      }
+      if (d > lo) {
+        LocalDate pv = ld; local_date_mutation::decrementOneDay(pv);
+        Civil e = civil_from_days(d - 1); n++;
+        if (pv.year() != e.y || pv.month() != e.m || pv.day() != e.d) { if (bad < 20) printf("day dec %ld %d %d %d\n", d, pv.year(), pv.month(), pv.day()); bad++; }
+      }
+    }
+    for (int b = 0; b < 256; b++) {
+      // each zoned helper changes its own field only
+      ZonedDateTime z = ZonedDateTime::forComponents(2011, 7, 17, 5, 43, 21, TimeZone::forUtc());
+      ZonedDateTime a = z; a.month((uint8_t) b); ZonedDateTime a2 = a; zoned_date_time_mutation::incrementMonth(a2);
+      ZonedDateTime c2 = z; c2.day((uint8_t) b); ZonedDateTime c3 = c2; zoned_date_time_mutation::incrementDay(c3);
+      ZonedDateTime h2 = z; h2.hour((uint8_t) b); ZonedDateTime h3 = h2; zoned_date_time_mutation::incrementHour(h3);
+      ZonedDateTime m2 = z; m2.minute((uint8_t) b); ZonedDateTime m3 = m2; zoned_date_time_mutation::incrementMinute(m3);
+      ZonedDateTime y2 = z; if ((int8_t) b != 127 && (int8_t) b >= 0) { y2.yearTiny((int8_t) b); } ZonedDateTime y3 = y2; zoned_date_time_mutation::incrementYear(y3);
+      bool ok = a2.year() == 2011 && a2.day() == 17 && a2.hour() == 5 && a2.minute() == 43 && a2.second() == 21
+          && c3.year() == 2011 && c3.month() == 7 && c3.hour() == 5 && c3.minute() == 43 && c3.second() == 21
+          && h3.year() == 2011 && h3.month() == 7 && h3.day() == 17 && h3.minute() == 43 && h3.second() == 21
+          && m3.year() == 2011 && m3.month() == 7 && m3.day() == 17 && m3.hour() == 5 && m3.second() == 21
+          && y3.month() == 7 && y3.day() == 17 && y3.hour() == 5 && y3.minute() == 43 && y3.second() == 21;
+      n++;
+      if (!ok) { if (bad < 20) printf("other-fields %d\n", b); bad++; }
+      TimePeriod p(7, 8, 9, -1);
+      p.hour((uint8_t) b); TimePeriod p2 = p; time_period_mutation::incrementHour(p2);
+      TimePeriod q(7, 8, 9, -1); q.minute((uint8_t) b); TimePeriod q2 = q; time_period_mutation::incrementMinute(q2);
+      if (p2.minute() != 8 || p2.second() != 9 || p2.sign() != -1 || q2.hour() != 7 || q2.second() != 9 || q2.sign() != -1) { if (bad < 20) printf("other-fields-period %d\n", b); bad++; }
+    }
+    printf("done %ld %ld\n", n, bad);
+    return 0;
+  }
   return 2;
 }
